@@ -343,6 +343,15 @@ func PrimitiveSyntax(p dsl.PrimitiveDefinition) string {
 func WriteComment(w *formatting.IndentedWriter, comment string) {
 	comment = strings.TrimSpace(comment)
 	if comment != "" {
+		// a line comment that ends with a backslash would continue on the next line of code
+		lines := strings.Split(comment, "\n")
+		for i, line := range lines {
+			if strings.HasSuffix(strings.TrimRight(line, " \t\r"), "\\") {
+				lines[i] = strings.TrimRight(line, " \t\r") + " ."
+			}
+		}
+		comment = strings.Join(lines, "\n")
+
 		w = formatting.NewIndentedWriter(w, "// ").Indent()
 		w.WriteStringln(comment)
 	}
